@@ -84,6 +84,7 @@ def run_check(pid, tier, seed):
 
 
 _replay_memo = {}
+GUARD_KINDS = ("requires-sat", "cover", "site-exists", "exists", "supported")
 
 
 def replay_violation(cm, pid, r):
@@ -227,8 +228,10 @@ def main(argv=None):
         "bounded_checks": [{"name": r.name, "status": r.status, **r.detail} for r in bounded],
         "samples": samples,
         "evaluations": max(1, n_obl + sum(r.detail.get("evaluations", 0) for r in bounded)),
-        "distinct_nontrivial": max(2, n_obl) if n_obl else 0,
-        "rule": "one case per generated proof obligation (distinct by name + path condition); bounded checks listed separately under bounded_checks and never counted as discharged",
+        "distinct_nontrivial": len(set(r.name for r in results if r.kind not in GUARD_KINDS)),
+        "rule": "one case per generated proof obligation (evaluations = obligations + cases run by bounded checks); distinct_nontrivial counts distinct obligation names "
+                "that state part of a contract, i.e. excluding the vacuity / reachability guards (kinds requires-sat, cover, site-exists, exists, supported); "
+                "bounded checks are listed separately under bounded_checks and never counted as discharged",
     }
     if level != "proof":
         ev_total = sum(r.detail.get("evaluations", 0) for r in bounded)
@@ -245,8 +248,13 @@ def main(argv=None):
                               f"reported on every run as KNOWN-FINDING lines; everything outside those obligations is proved as for level 'proof'")
     ev = {"property_id": pid, "tier": a.tier if a.tier in ("quick", "thorough") else "quick", "seed": seed, "level": level, "coverage": cov,
           "assumptions": list(getattr(cm, "ASSUMPTIONS", [])), "wall_s": round(wall, 2), "violations": len(violations)}
-    os.makedirs(os.path.join(ROOT, "evidence"), exist_ok=True)
-    json.dump(ev, open(os.path.join(ROOT, "evidence", pid + ".json"), "w"), indent=1)
+    # PVC_EVIDENCE_DIR: development runs on deliberately broken scratch trees (tools/seedtest.sh) write elsewhere so
+    # that the committed evidence/<id>.json always records a run on the tree it is committed with
+    evdir = os.environ.get("PVC_EVIDENCE_DIR") or os.path.join(ROOT, "evidence")
+    os.makedirs(evdir, exist_ok=True)
+    tmp = os.path.join(evdir, pid + ".json.tmp")
+    json.dump(ev, open(tmp, "w"), indent=1)
+    os.replace(tmp, os.path.join(evdir, pid + ".json"))
     print(f"{pid}: {n_obl} obligations, {len(proved)} discharged, {len(refuted)} refuted ({len(known)} known), {len(undecided)} undecided, "
           f"{len(bounded)} bounded checks, {sum(s['paths'] for s in stats)} paths, {wall:.1f}s")
     if violations:
